@@ -591,6 +591,7 @@ def r18_4(ctx, run, rule='R18.4'):
                            f"{t.get('file')}:{t.get('line')}")
     run.floor(rule, 'float comparators in the ordering cone', n_cmp, 3)
     const_outcomes(ctx, run, rule, cone)
+    float_pair_outcomes(ctx, run, rule, cone)
     # same-kind integer comparisons and the signed/unsigned cross cases
     b = f.bodies.get(ORDER_ROOTS[0])
     if b is not None:
@@ -693,6 +694,72 @@ def const_outcomes(ctx, run, rule, cone):
                 run.violation(rule, p, d, f'the helper answers {v} without looking at the integer on a path where the float is only known to lie in '
                               f'{"(" if los else "["}{lo!r}, {hi!r}{")" if his else "]"}: that interval contains values inside the range of {ity} [{tmin}, {tmax}], '
                               f'for which the answer depends on the integer', loc)
+    return n
+
+
+def float_pair_outcomes(ctx, run, rule, cone):
+    """A helper (f64, f64) -> Ordering in the ordering cone that answers with constant orderings must be an order comparison of
+    its two arguments in one orientation: on every path the relation its conditions establish between the arguments
+    (a subset of {<, =, >}) must force the constant it returns.  `a != b => Less` is not: it answers Less for a > b too."""
+    f = ctx.facts
+    REL = {('Lt', True): {'lt'}, ('Lt', False): {'eq', 'gt'}, ('Le', True): {'lt', 'eq'}, ('Le', False): {'gt'}, ('Gt', True): {'gt'}, ('Gt', False): {'lt', 'eq'},
+           ('Ge', True): {'gt', 'eq'}, ('Ge', False): {'lt'}, ('Eq', True): {'eq'}, ('Eq', False): {'lt', 'gt'}, ('Ne', True): {'lt', 'gt'}, ('Ne', False): {'eq'}}
+    FLIP = {'lt': 'gt', 'gt': 'lt', 'eq': 'eq'}
+    n = 0
+    for p in cone:
+        b = f.bodies[p]
+        if b.kind == 'Promoted' or b.argc != 2 or '{closure' in p:
+            continue
+        if str(b.local_ty(1).get('s')) != 'f64' or str(b.local_ty(2).get('s')) != 'f64' or not str(b.local_ty(0).get('s', '')).endswith('cmp::Ordering'):
+            continue
+        ps, _ = explore(b)
+        a1, a2 = ('init', 1, b.name_of(1)), ('init', 2, b.name_of(2))
+        rows = []
+        for q in ps:
+            if q.end[0] != 'return':
+                continue
+            ret = deref_all(q.ret)
+            if not (agg_variant(ret) and ret[1][1].endswith('cmp::Ordering')):
+                continue
+            rel = {'lt', 'eq', 'gt'}
+            for c in q.conds:
+                t = c[0]
+                if t[0] == 'bin' and (t[1], c[2]) in REL and c[1] == 'eq':
+                    x, y = deref_all(t[2]), deref_all(t[3])
+                    if (x, y) == (a1, a2):
+                        rel &= REL[(t[1], c[2])]
+                    elif (x, y) == (a2, a1):
+                        rel &= {FLIP[r_] for r_ in REL[(t[1], c[2])]}
+            if rel:
+                rows.append((ret[1][2], rel))
+        if not rows:
+            continue
+        n += 1
+        want = {'Less': 'lt', 'Equal': 'eq', 'Greater': 'gt'}
+        ok = any(all(rel <= {(FLIP[want[v]] if flip else want[v])} for v, rel in rows) for flip in (False, True))
+        loc = f'{b.file}:{b.line}'
+        d = 'float-pair-comparator'
+        if ok:
+            run.proved(rule, p, d, f'{len(rows)} constant outcome(s), each forced by the order relation established between the two floats', loc)
+            continue
+        worst = next((v, rel) for v, rel in rows if len(rel) > 1)
+        # does a comparator of a *signed* integer with a float reach it?  (for an unsigned one the float is >= 0 and one-sided answers can be right)
+        signed = False
+        for pc in cone:
+            bc = f.bodies[pc]
+            base = pc.split('::{closure')[0]
+            bb_ = f.bodies.get(base)
+            if bb_ is None or bb_.argc != 2 or str(bb_.local_ty(1).get('s')) not in ('i64', 'i32', 'i16', 'i8', 'i128', 'isize') or str(bb_.local_ty(2).get('s')) != 'f64':
+                continue
+            if any(canon(callee_name(t_)) == canon(p) or canon(callee_name(t_)).endswith('::' + p.split('::')[-1]) for _, t_ in bc.calls()):
+                signed = True
+        msg = (f'answers {worst[0]} on a path where its two floats are only known to be related by {sorted(worst[1])}: it is not an order comparison of its arguments in either '
+               f'orientation')
+        if signed:
+            run.violation(rule, p, d, msg + '; a signed-integer/float comparator breaks its tie with it, and for negative floats the fractional part has the other sign '
+                          '(-4 vs -4.5 would come out Less)', loc)
+        else:
+            run.undecided(rule, p, d, msg + '; whether its callers only pass arguments for which the one-sided answer is right is not decided', loc)
     return n
 
 
